@@ -507,6 +507,10 @@ def in_progress_def(rep, prog, cfg):
         rep.fail(rule + ".anchor", cfg, INPROG, "function not found")
         return
     b = bs[0]
+    # the question may be put to the state itself (`!self.state.is_initial()`): private helpers of the module are part of it
+    from ..inline import inlined, module_private_helpers
+    nb = inlined(prog, b, module_private_helpers(b), depth=2)
+    b = nb if nb.raw.get("inlined") else b
     adt = None
     for a in prog.adts.values():
         if a["name"].endswith("response::ResponseState"):
